@@ -819,7 +819,6 @@ pub fn run(args: Args) {
                 .filter(|k| !p.thin || *k > p.n_ops || *k % 4 == 0)
                 .collect()
         } else {
-            sampled.push(format!("{}:{} {} of {}", SHAPES[p.shape].name, p.txn.name(), cap, p.n));
             let step = tier.pick(8u64, 2u64);
             let mut v: std::collections::BTreeSet<u64> = (1..=p.n_ops.min(p.n))
                 .filter(|k| *k % step == 0 || *k <= 4)
@@ -830,7 +829,15 @@ pub fn run(args: Args) {
             for i in 0..rest {
                 v.insert(p.n_ops + 6 + (i * (p.n - 20 - p.n_ops)) / rest);
             }
-            v.into_iter().filter(|x| *x >= 1 && *x <= p.n).collect()
+            let v: Vec<u64> = v.into_iter().filter(|x| *x >= 1 && *x <= p.n).collect();
+            sampled.push(format!(
+                "{}:{} {} of {}",
+                SHAPES[p.shape].name,
+                p.txn.name(),
+                v.len(),
+                p.n
+            ));
+            v
         };
         for k in ks {
             cases.push((pi, Crash::Hook(k)));
